@@ -61,7 +61,7 @@ def _k(a):
     if isinstance(a, Seq):
         return ("seq", repr(a))
     if isinstance(a, Inst):
-        return ("inst", a.cls.q, id(a))
+        return ("inst", a.cls.q, a.uid)
     if isinstance(a, (list, tuple)):
         return tuple(_k(x) for x in a)
     if isinstance(a, dict):
@@ -71,6 +71,22 @@ def _k(a):
 
 def _show(a):
     return repr(a)
+
+
+def _has_param(a):
+    if isinstance(a, Sym):
+        return a.tag.startswith("param:") or any(_has_param(x) for x in a.args)
+    if isinstance(a, (tuple, list)):
+        return any(_has_param(x) for x in a)
+    return False
+
+
+def _numeric_constant(v):
+    """a term built by numpy.zeros / ones / eye / identity from values that contain no data parameter"""
+    if isinstance(v, Sym) and v.tag == "call" and isinstance(v.args[0], Sym) and v.args[0].tag == "attr" \
+            and v.args[0].args[1] in ("zeros", "ones", "eye", "identity") and "numpy" in repr(v.args[0].args[0]):
+        return not _has_param(v.args[1])
+    return False
 
 
 def mk(tag, *args):
@@ -85,8 +101,8 @@ def mk(tag, *args):
 
 
 class Inst:
-    def __init__(self, cls):
-        self.cls, self.attrs = cls, {}
+    def __init__(self, cls, uid=0):
+        self.cls, self.attrs, self.uid = cls, {}, uid
 
     def __repr__(self):
         return "<%s %s>" % (self.cls.q.replace("discopy.", ""), {k: v for k, v in self.attrs.items() if k in ("_name", "_dom", "_cod", "_data", "_dagger", "_mixed")})
@@ -103,6 +119,12 @@ class ClassRef:
 class Bound:
     def __init__(self, inst, owner, fn, kind, after=None):
         self.inst, self.owner, self.fn, self.kind = inst, owner, fn, kind
+
+
+class LocalFn:
+    """a nested def with a statement body (e.g. recursive_free_symbols inside cat.Box.__init__)"""
+    def __init__(self, node, env, owner, mod):
+        self.node, self.env, self.owner, self.mod = node, env, owner, mod
 
 
 class Lam:
@@ -170,8 +192,10 @@ class Sim:
             return bool(v)
         if isinstance(v, (int, float, complex)):
             return bool(v)
-        if isinstance(v, (Inst, ClassRef, Bound, Lam)):
+        if isinstance(v, (Inst, ClassRef, Bound, Lam, LocalFn)):
             return True
+        if isinstance(v, (set, frozenset)):
+            return bool(v)
         if isinstance(v, Sym):
             if v.tag == "not":
                 return not self.truth(v.args[0], node)
@@ -243,6 +267,10 @@ class Sim:
             return [E(e) for e in n.elts]
         if isinstance(n, ast.Dict):
             return {E(k): E(v) for k, v in zip(n.keys, n.values)}
+        if isinstance(n, ast.Set):
+            return mk("set", tuple(E(e) for e in n.elts))
+        if isinstance(n, (ast.SetComp, ast.DictComp)):
+            return mk("comp", ast.unparse(n), tuple(sorted((k, _k(v)) for k, v in env.items() if k in {x.id for x in ast.walk(n) if isinstance(x, ast.Name)})))
         if isinstance(n, ast.Lambda):
             return Lam(n, dict(env), owner)
         if isinstance(n, ast.IfExp):
@@ -315,6 +343,17 @@ class Sim:
                     self.assign(g.target, x, e2, mod, inst, owner)
                     out.append(self.ev(n.elt, e2, mod, inst, owner))
                 return out
+        if isinstance(n, (ast.ListComp, ast.GeneratorExp)) and len(n.generators) == 1 and not n.generators[0].ifs:
+            g = n.generators[0]
+            try:
+                e2 = dict(env)
+                self.assign(g.target, Sym("elem"), e2, mod, inst, owner)
+                saved = dict(self.oracle)
+                v = self.ev(n.elt, e2, mod, inst, owner)
+                if isinstance(v, bool):
+                    return mk("gen-const", v, ast.unparse(n.generators[0].iter))
+            except (NeedOracle, Unsupported, RaisesError):
+                pass
         if isinstance(n, (ast.ListComp, ast.GeneratorExp)):
             return mk("comp", ast.unparse(n), tuple(sorted((k, _k(v)) for k, v in env.items() if k in {x.id for x in ast.walk(n) if isinstance(x, ast.Name)})))
         if isinstance(n, ast.JoinedStr):
@@ -352,6 +391,8 @@ class Sim:
                 return (a == b) == (t is ast.Eq)
             except Exception:
                 pass
+        if t in (ast.In, ast.NotIn) and isinstance(b, (dict, set, frozenset, tuple, list)) and len(b) == 0:
+            return t is ast.NotIn
         if t in (ast.In, ast.NotIn):
             if isinstance(b, (tuple, list, dict, str)) and not isinstance(a, (Sym, Inst)):
                 try:
@@ -366,7 +407,7 @@ class Sim:
         if t is ast.Pow and isinstance(l, Seq):
             if isinstance(r, Lin):
                 return type_pow(l, r)
-            raise Unsupported("type power by %r" % (r,))
+            raise RaisesError("TypeError: Ty.__pow__ expects an int, got %r" % (r,))
         if t is ast.MatMult:
             if isinstance(l, Seq) and isinstance(r, Seq):
                 return l + r
@@ -403,6 +444,8 @@ class Sim:
 
     # ------------------------------------------------------------------ attributes
     def getattr(self, base, attr, n, mod):
+        if base is None:
+            raise RaisesError("AttributeError: 'NoneType' object has no attribute %r" % attr)
         if isinstance(base, Inst):
             if attr in base.attrs:
                 return base.attrs[attr]
@@ -432,6 +475,8 @@ class Sim:
             return mk("attr", Sym("type:%r" % base), attr)
         if isinstance(base, tuple) and len(base) == 2 and base[0] == "module":
             return self.global_name(base[1], attr)
+        if isinstance(base, (set, frozenset)) and attr in ("union",):
+            return ("setmethod", base, attr)
         if isinstance(base, dict) and attr in ("get", "items", "values", "keys"):
             return ("dictmethod", base, attr)
         if isinstance(base, str) and attr in ("format", "join", "replace"):
@@ -503,6 +548,20 @@ class Sim:
             if fv.inst is None:
                 return self.run_function(fv.owner, fv.fn, args, kw, inst=args[0] if args and isinstance(args[0], Inst) else None)
             return self.run_function(fv.owner, fv.fn, [fv.inst] + args, kw, inst=fv.inst)
+        if isinstance(fv, LocalFn):
+            self.depth += 1
+            if self.depth > 40:
+                raise Unsupported("recursion too deep")
+            try:
+                e2 = dict(fv.env)
+                names = [a.arg for a in fv.node.args.args]
+                for nm, v in zip(names, args):
+                    e2[nm] = v
+                e2.update(kw)
+                r = self.block(fv.node.body, e2, fv.mod, inst, fv.owner)
+                return r[1] if r else None
+            finally:
+                self.depth -= 1
         if isinstance(fv, Lam):
             e2 = dict(fv.env)
             names = [a.arg for a in fv.node.args.args]
@@ -518,6 +577,11 @@ class Sim:
             if meth == "get":
                 return d.get(args[0], args[1] if len(args) > 1 else None)
             return mk("dict." + meth, tuple(sorted((k, _k(v)) for k, v in d.items())))
+        if isinstance(fv, tuple) and fv and fv[0] == "setmethod":
+            _, base, meth = fv
+            if all(isinstance(a, (dict, set, frozenset)) and len(a) == 0 for a in args) and len(base) == 0:
+                return set()
+            return mk("set.union", tuple(_k(a) for a in args))
         if isinstance(fv, tuple) and fv and fv[0] == "strmethod":
             return mk("str." + fv[2], fv[1], tuple(args))
         if isinstance(fv, tuple) and fv and fv[0] == "symmethod":
@@ -591,9 +655,9 @@ class Sim:
                         if self.decide("isinstance:%r:%s" % (v, kk[1])):
                             return True
                 elif isinstance(kk, Sym):
-                    if isinstance(v, Sym):
-                        if self.decide("isinstance:%r:%r" % (v, kk)):
-                            return True
+                    # a class from outside the package (collections.abc.Mapping / Iterable / Callable, ...): data parameters are
+                    # modelled as scalar symbolic expressions, which are none of these (assumption recorded in the evidence)
+                    continue
                 else:
                     raise Unsupported("isinstance(%r, %r)" % (v, kk))
             return False
@@ -645,8 +709,24 @@ class Sim:
             if isinstance(args[0], Inst) and isinstance(args[1], str):
                 return args[1] in args[0].attrs or self.m.lookup(args[0].cls, args[1]) is not None
             if isinstance(args[0], Sym):
+                if args[1] in ("free_symbols", "subs", "diff") and _numeric_constant(args[0]):
+                    return False            # numpy.zeros / ones / eye of symbolic shape: an array of numbers
+                if args[1] in ("free_symbols", "subs", "diff", "conjugate"):
+                    return True
+                if args[1] in ("shape", "_apply"):
+                    return False
                 return self.decide("hasattr:%r:%s" % (args[0], args[1]))
             return False
+        if name == "set" and not args:
+            return set()
+        if name == "map" and len(args) == 2 and isinstance(args[1], (list, tuple)) and not any(isinstance(x, tuple) and x and x[0] == "star" for x in args[1]):
+            return [self.apply(args[0], [x], {}, n, mod, inst) for x in args[1]]
+        if name in ("all", "any") and args and isinstance(args[0], Sym) and args[0].tag == "gen-const":
+            b = args[0].args[0]
+            if name == "any" and b is False:
+                return False
+            if name == "all" and b is True:
+                return True
         if name in ("all", "any") and args and isinstance(args[0], (list, tuple)) and not any(isinstance(x, tuple) and x and x[0] == "star" for x in args[0]):
             vals = [self.truth(x) for x in args[0]]
             return all(vals) if name == "all" else any(vals)
@@ -732,7 +812,8 @@ class Sim:
             return self.make_type(cls, args, kw)
         if cls.q == "discopy.cat.Ob" or self.m.cls("discopy.cat.Ob") in self.m.mro(cls):
             return mk("ob:" + cls.name, *args)
-        inst = Inst(cls)
+        self.n_inst = getattr(self, "n_inst", 0) + 1
+        inst = Inst(cls, self.n_inst)
         r = self.m.lookup(cls, "__init__")
         if r is None or not isinstance(r[1], ast.FunctionDef):
             return inst
@@ -781,7 +862,7 @@ class Sim:
             elif isinstance(st, ast.Raise):
                 raise RaisesError(ast.unparse(st)[:100])
             elif isinstance(st, ast.FunctionDef):
-                env[st.name] = Lam(ast.Lambda(args=st.args, body=_body_expr(st)), env, owner) if _body_expr(st) is not None else Sym("localfn:" + st.name)
+                env[st.name] = Lam(ast.Lambda(args=st.args, body=_body_expr(st)), env, owner) if _body_expr(st) is not None else LocalFn(st, env, owner, mod)
             elif isinstance(st, (ast.Import, ast.ImportFrom, ast.Pass)):
                 if isinstance(st, ast.ImportFrom):
                     for a in st.names:
